@@ -22,7 +22,8 @@ THEOREMS = ["Ymq.C10." + t for t in (
     "mul_spec fft_spec mulfft_spec mulfft_exact kronecker_cyclic_fft roots_eval_spec roots_eval_zmod crt_q_estimate fint_mul_karatsuba crt_spec ntt_roots_spec ntt_inplace_spec ntt_pipeline_spec crt_call_bound from_mint_spec pprods_modn_spec convolve_modn_ntt_spec "
     "mont_ops_hom fft_longmul_refines fft_midmul_refines mul_fft_end_to_end longmul_ntt_end_to_end "
     "middlemul_ntt_end_to_end div_mod_xn_mont multi_eval_mont roots_eval_mont "
-    "mont_fin_hom fft_longmul_word_eq fft_midmul_word_eq").split()]
+    "mont_fin_hom fft_longmul_word_eq fft_midmul_word_eq "
+    "roots_eval_unit_spec roots_eval_full_spec roots_eval_full_zmod roots_eval_full_mont").split()]
 HYPOTHESES = []
 PROFILES = ["release", "chk"]
 TIMEOUT = 60.0
@@ -1249,10 +1250,8 @@ LEVEL_NOTE = ("Trusted: Lean kernel (+propext, Classical.choice, Quot.sound); th
               "any more; one-statement forms are given for mul_fft, _longmul (NTT branch) and Poly::middlemul (power-of-two branch); for the "
               "recursive routines (series, trees, multi_eval, roots_eval) the composition is by extensional equality of the step, the models "
               "are not re-expressed with the word-level step inside. The driver runs the models with natOps (pf_*) and with montOps on raw Montgomery residues (pfm_* twins, K only). "
-              "NO THEOREM: roots_eval with |b| = 1. "
-              "crt_spec covers _crt (mg_mul64, quotient estimate, column loop, carry assert) on the tables of the model of MultiZmodP::new; "
-              "from_mint, redc, pprods_modn[q] = -qP mod n, and that V < P/2 for the values _crt is called on, are checked by K/O (mzp_new, "
-              "mzp_from_mint, mzp_crt, mzp_redc) only. The arith_poly theorems are about models over abstract "
+              "MultiZmodP: crt_spec, from_mint_spec, pprods_modn_spec, crt_call_bound and the zn.redc step are composed in "
+              "convolve_modn_ntt_spec; redc on residues of values V >= P/2 (outside the documented range) is compared only. The arith_poly theorems are about models over abstract "
               "coefficient operations (Hom/HomE/HomC: ring homomorphic image, sound zn.inv, == is equality of residues); natOps n (what the "
               "driver runs) is proved to be such an instance for ZMod n. ZmodN operations are exact modular arithmetic on the domain proved in "
               "C07; bnum operators are Nat arithmetic.")
